@@ -31,15 +31,20 @@ Names     == {"plain", "auto", "magic"}             \* ordinary / in settings.au
 SysPaths  == {"default", "explicit_with_project", "explicit_without_project"}
 
 VARIABLES kind, loc, nm, syspath, smart, unsafe,    \* the case
-          pc,                                       \* "lookup" | "find" | "load" | "exec" | "done"
+          envkind,                                  \* "subprocess": finders and imports run in the helper process;
+                                                    \* "inprocess" (InterpreterEnvironment): they run in the host itself
+          pc,                                       \* "lookup" | "find" | "found" | "load" | "exec" | "restore" | "done"
           executed,                                 \* has an ExecImport resolved to this module's file?
           parsed,
-          hostpath, raised                          \* sys.path swapped? did __import__ raise?
-vars == <<kind, loc, nm, syspath, smart, unsafe, pc, executed, parsed, hostpath, raised>>
+          hostpath, raised,                         \* sys.path swapped? did __import__ raise?
+          procpath                                  \* sys.path of the process that runs the finders (functions.get_module_info
+                                                    \* swaps it for the Script's sys_path and restores it in `finally`)
+vars == <<kind, loc, nm, syspath, smart, unsafe, envkind, pc, executed, parsed, hostpath, raised, procpath>>
 
 Init == /\ kind \in Kinds /\ loc \in Locations /\ nm \in Names /\ syspath \in SysPaths
-        /\ smart \in BOOLEAN /\ unsafe \in BOOLEAN
+        /\ smart \in BOOLEAN /\ unsafe \in BOOLEAN /\ envkind \in {"subprocess", "inprocess"}
         /\ pc = "lookup" /\ executed = FALSE /\ parsed = FALSE /\ hostpath = "original" /\ raised = FALSE
+        /\ procpath = "original"
 
 \* Is the module's directory on the effective sys.path of the Script at all?
 OnSysPath ==
@@ -49,25 +54,33 @@ OnSysPath ==
 \* Is its directory part of the BASE sys path (what _load_builtin_module keeps when not unsafe)?
 \* Project._get_base_sys_path is always the ENVIRONMENT's path -- an explicit Project(sys_path=...) is
 \* not "safe" -- so only modules of the environment qualify.
-CONSTANT SafeFilter
+CONSTANTS SafeFilter,
+          FindRestoresAlways      \* TRUE (the code): get_module_info restores sys.path in a finally block, also when the
+                                  \* finders raise ImportError (module not found); FALSE = what-if
 InBase == IF SafeFilter THEN loc = "env" ELSE TRUE
 
 Lookup == /\ pc = "lookup"
           /\ pc' = IF nm = "auto" THEN "load" ELSE "find"
-          /\ UNCHANGED <<kind, loc, nm, syspath, smart, unsafe, executed, parsed, hostpath, raised>>
+          /\ UNCHANGED <<kind, loc, nm, syspath, smart, unsafe, envkind, executed, parsed, hostpath, raised, procpath>>
 
+\* get_module_info: sys.path, temp = sys_path, sys.path; try: _find_module(...)
+FindSwap ==
+  /\ pc = "find" /\ pc' = "found" /\ procpath' = "swapped"
+  /\ UNCHANGED <<kind, loc, nm, syspath, smart, unsafe, envkind, executed, parsed, hostpath, raised>>
+\* ... except ImportError: return None, None   finally: sys.path = temp
 FindModule ==
-  /\ pc = "find"
+  /\ pc = "found"
+  /\ procpath' = IF FindRestoresAlways \/ (OnSysPath /\ kind # "missing") THEN "original" ELSE "swapped"
   /\ IF ~OnSysPath \/ kind = "missing" THEN pc' = "done" /\ UNCHANGED parsed
      ELSE IF kind \in {"source", "package"} THEN pc' = "done" /\ parsed' = TRUE
      ELSE IF kind = "namespace" THEN pc' = "done" /\ UNCHANGED parsed
      ELSE pc' = "load" /\ UNCHANGED parsed
-  /\ UNCHANGED <<kind, loc, nm, syspath, smart, unsafe, executed, hostpath, raised>>
+  /\ UNCHANGED <<kind, loc, nm, syspath, smart, unsafe, envkind, executed, hostpath, raised>>
 
 \* _load_builtin_module + access.load_module: swap sys.path ...
 LoadBuiltin ==
   /\ pc = "load" /\ pc' = "exec" /\ hostpath' = "swapped"
-  /\ UNCHANGED <<kind, loc, nm, syspath, smart, unsafe, executed, parsed, raised>>
+  /\ UNCHANGED <<kind, loc, nm, syspath, smart, unsafe, envkind, executed, parsed, raised, procpath>>
 
 \* ... __import__ ...: the module's file is imported iff it can be found on the (filtered) path
 Visible == kind # "missing" /\ kind # "namespace" /\ OnSysPath /\ (unsafe \/ InBase)
@@ -76,13 +89,13 @@ ExecImport ==
   /\ executed' = Visible
   /\ \E r \in BOOLEAN : raised' = r               \* the imported code may raise anything
   /\ pc' = "restore"
-  /\ UNCHANGED <<kind, loc, nm, syspath, smart, unsafe, parsed, hostpath>>
+  /\ UNCHANGED <<kind, loc, nm, syspath, smart, unsafe, envkind, parsed, hostpath, procpath>>
 \* ... finally: sys.path = temp
 Restore ==
   /\ pc = "restore" /\ hostpath' = "original" /\ pc' = "done"
-  /\ UNCHANGED <<kind, loc, nm, syspath, smart, unsafe, executed, parsed, raised>>
+  /\ UNCHANGED <<kind, loc, nm, syspath, smart, unsafe, envkind, executed, parsed, raised, procpath>>
 
-Next == Lookup \/ FindModule \/ LoadBuiltin \/ ExecImport \/ Restore
+Next == Lookup \/ FindSwap \/ FindModule \/ LoadBuiltin \/ ExecImport \/ Restore
 Spec == Init /\ [][Next]_vars /\ WF_vars(Next)
 
 \* "never imports or executes any code from the analysed project" (load_unsafe_extensions = FALSE)
@@ -90,11 +103,13 @@ NoProjectExec == (~unsafe /\ loc \in {"project", "added"}) => ~executed
 \* Python sources are only ever read and parsed
 SourcesOnlyParsed == (kind \in {"source", "package"} /\ nm # "auto") => ~executed
 \* the host's sys.path is the original one whenever no import is in flight, also after a raising import
-PathRestored == pc = "done" => hostpath = "original"
+\* (in-process the finder process IS the host: a path left swapped there is a changed host sys.path, and the next
+\* `import gi` would see the project directory as part of the environment's own path)
+PathRestored == pc = "done" => (hostpath = "original" /\ procpath = "original")
 Terminates == <>(pc = "done")
 
 \* emission of the decision table for the harness
 Emit == (pc = "done") =>
           PrintT(<<"CASE", ToJson([kind |-> kind, loc |-> loc, nm |-> nm, syspath |-> syspath, smart |-> smart,
-                                   unsafe |-> unsafe, executed |-> executed, parsed |-> parsed])>>)
+                                   unsafe |-> unsafe, envkind |-> envkind, executed |-> executed, parsed |-> parsed])>>)
 =============================================================================
